@@ -27,6 +27,35 @@ CFG = dict(
 def run(ctx):
     return vlib.standard_flow(ctx, CFG)
 
+
+def replay(ctx, path):
+    """Re-run one recorded case: the driver regenerates it against $VERIF_REPO (same seed/index), then the model and the
+    oracle are evaluated on the implementation's trace; prints the first access the model cannot follow."""
+    import json, subprocess, os
+    obj = json.load(open(path))
+    case = obj.get("case") or obj.get("first_case") or obj
+    args = (case.get("sample") or {}).get("replay_args")
+    coq_term = case.get("coq")
+    exe, log = vlib.go_build(ctx)
+    if exe and args:
+        lines = vlib.run_driver(ctx, exe, args.split())
+        if lines:
+            coq_term = lines[-1]["coq"]
+            print("re-ran the implementation: %s" % args)
+            for l in lines[-1]["sample"].get("ops", []):
+                print("  " + l)
+            for l in lines[-1]["sample"].get("trace_head", []):
+                print("    " + l)
+    src = os.path.join(ctx.build, "replay.v")
+    open(src, "w").write("From Coq Require Import List NArith ZArith String.\nImport ListNotations.\n"
+                         "From Verif.Common Require Import Cas.\nFrom Verif.C19 Require Import Model Spec.\n"
+                         "Definition c := " + coq_term + ".\n"
+                         "Eval vm_compute in (\"model_agrees, oracle_ok\", check_case c).\n"
+                         "Eval vm_compute in (\"first access the model cannot follow (index, model's request)\", first_bad c).\n")
+    ok, out = vlib.coqc(src, timeout=300)
+    print(out[-6000:])
+    return 0 if ok else 1
+
 MANIFEST = dict(
     category="proof",
     text="Theorems over an executable small-step model of the IPAM client protocol on a CAS store, for every interleaving of any "
